@@ -8,6 +8,7 @@ import RosedVerif.Model.InstAFacts
 import RosedVerif.Model.CompositeLemmas
 import RosedVerif.Spec.CompositeLemmas
 import RosedVerif.Model.WrapFits
+import RosedVerif.Model.BridgeComposite
 namespace RosedVerif.Props
 open RosedVerif
 
@@ -75,5 +76,44 @@ theorem C14_empty {α : Type} [DecidableEq α] (cx : Ctx α) (ed : Editor α) (p
     (o : Options α) : ed.insertTwoColumnsOpts cx p [] [] g w pct o = .ok ed := by
   simp [Editor.insertTwoColumnsOpts]
   rfl
+
+/-- **bridge to code points** (the public operation, root editor, any options in which the line separator cannot be found across cluster boundaries, `GoodSep`): on a stable vocabulary containing the space and the hyphen, the model of InsertTwoColumnsOpts run on CODE POINTS with the real UAX #29 segmentation returns the flattening of the cluster-level block; every line re-segments to its cluster line, is at most the clamped width in real clusters, has the shape left ++ padding ++ right, and the re-segmented right column starts at cluster `leftW + gap` on every line -/
+theorem C14_code_points {V : List (List Int)} (hV : VocabStable V = true)
+    (hsp : [0x20] ∈ V)
+    (hhy : [0x2D] ∈ V)
+    (hspTail : ∀ t ∈ V, (0x20 : Int) ∉ t.tail)
+    (toks : List (List Int))
+    (ht : ∀ t ∈ toks, t ∈ V)
+    (o0 : Options (List Int))
+    (pos : Int)
+    (l r : List (List Int))
+    (hl : ∀ t ∈ l, t ∈ V)
+    (hr : ∀ t ∈ r, t ∈ V)
+    (gap width : Int)
+    (pct : Pct)
+    (o : Options (List Int))
+    (hS : BridgeOps.GoodSep V (o.withDefaults cxB).lineSep)
+    (hne : ¬(l.isEmpty ∧ r.isEmpty))
+    (hg : 0 ≤ gap) :
+    ∃ (leftW rightW : Int) (ls : List (List (List Int))), 2 ≤ leftW ∧ 2 ≤ rightW ∧
+      leftW + gap + rightW = max width (gap + 4) ∧
+      Editor.insertTwoColumnsOpts cxA (.root toks.flatten o0.flat) pos l.flatten r.flatten gap width
+          pct o.flat =
+        .ok (.root (toks.take (Spec.normPos toks.length pos).toNat ++
+          (Block.mk ls (o.withDefaults cxB).lineSep (!(o.withDefaults cxB).noTrailing)).join ++
+          toks.drop (Spec.normPos toks.length pos).toNat).flatten o0.flat) ∧
+      ls.length = max (colLines cxB l leftW (o.withDefaults cxB).lineSep).length
+        (colLines cxB r rightW (o.withDefaults cxB).lineSep).length ∧
+      (∀ line ∈ ls, clusters cxA line.flatten = line ∧
+        (gLen cxA line.flatten : Int) ≤ max width (gap + 4)) ∧
+      ∀ (i : Nat) (hi : i < ls.length),
+        ls[i] = (colLines cxB l leftW (o.withDefaults cxB).lineSep).getD i [] ++
+          List.replicate ((leftW + gap).toNat -
+            ((colLines cxB l leftW (o.withDefaults cxB).lineSep).getD i []).length) cxB.sp ++
+          (colLines cxB r rightW (o.withDefaults cxB).lineSep).getD i [] ∧
+        ((clusters cxA ls[i].flatten).take (leftW + gap).toNat).length = (leftW + gap).toNat ∧
+        (clusters cxA ls[i].flatten).drop (leftW + gap).toNat =
+          (colLines cxB r rightW (o.withDefaults cxB).lineSep).getD i [] :=
+  insertTwoColumnsOpts_bridge_C14 hV hsp hhy hspTail toks ht o0 pos l r hl hr gap width pct o hS hne hg
 
 end RosedVerif.Props
